@@ -50,7 +50,7 @@ var c18Strings = []string{"", "a", "héllo wörld", "a&b=c", "x;y", "1,2", "<tag
 func c18MakeVal(r *Rng) c18Val {
 	v := c18Val{ID: r.Intn(2000) - 1000, Name: r.Pick(c18Strings), Ok: r.Bool(), Score: int64(r.Next() >> 20)}
 	for k := r.Intn(4); k > 0; k-- {
-		v.Tags = append(v.Tags, r.Pick(c18Strings[1:]))
+		v.Tags = append(v.Tags, r.Pick(c18Strings)) // blank elements included
 	}
 	return v
 }
@@ -80,10 +80,24 @@ func c18Gen(r *Rng, tier string, i int) Sx {
 	case 2:
 		bodies := []string{"", "{", "{\"id\":\"x\"}", "<val><id>x</id>", "id=abc&ok=maybe", "%zz", "{\"tags\":5}", "[1,2", "<a></b>", "id=1&id=2&tags[=x", "null", "{\"id\":1e99}", "\xff\xfe",
 			"<val><id>1</id></vals>", "<val a=b><id>1</id></val>", "<val><name>&nbsp;</name></val>", "<val><name>a & b</name></val>", "<val><id>1</ID></val>",
-			"<val><id>1</id><name>x</val></name>", "<val checked><id>1</id></val>", "{\"id\":1,}", "{'id':1}", "{\"id\":1} trailing", "id=1;ok=%zz"}
+			"<val><id>1</id><name>x</val></name>", "<val checked><id>1</id></val>", "{\"id\":1,}", "{'id':1}", "{\"id\":1} trailing", "id=1;ok=%zz", "id=&ok=true", "id=&name=x", "score="}
 		return L(A("mal"), A(r.Pick([]string{"json", "xml", "form", "query"})), SB([]byte(r.Pick(bodies))))
 	default:
-		return L(A("val"), B(r.Bool()), B(r.Bool()), A(r.Pick([]string{"json", "xml", "form", "query"})))
+		// the validator is switched by a sequence of Disable (d) / Reset (r) calls: it is on iff the last call is not Disable
+		enabled := r.Bool()
+		toggles := ""
+		for k := r.Intn(4); k > 0; k-- {
+			toggles += r.Pick([]string{"d", "r"})
+		}
+		if enabled {
+			toggles += r.Pick([]string{"", "r"})
+			if strings.HasSuffix(toggles, "d") {
+				toggles += "r"
+			}
+		} else {
+			toggles += "d"
+		}
+		return L(A("val"), B(enabled), B(r.Bool()), A(r.Pick([]string{"json", "xml", "form", "query"})), A("t"+toggles))
 	}
 }
 
@@ -242,9 +256,17 @@ func c18Exec(c Sx) (out Sx) {
 		if !valid {
 			v = c18Checked{Name: "", Age: 0}
 		}
-		if !enabled {
+		defer binding.ResetValidator()
+		if len(c.List) > 4 {
+			for _, t := range c.List[4].Atom[1:] {
+				if t == 'd' {
+					binding.DisableValidator()
+				} else {
+					binding.ResetValidator()
+				}
+			}
+		} else if !enabled {
 			binding.DisableValidator()
-			defer binding.ResetValidator()
 		}
 		vs := url.Values{}
 		if valid {
